@@ -858,9 +858,9 @@ pub fn property() -> Property {
             "when several injected failures coexist, any one of them may surface".into(),
         ],
         subs: vec![
-            prop_sub("cross_validate", 20000, 300000, |t: Tier| case_strategy(t.pick(60, 200), true), check_cv),
-            prop_sub("iter_fold", 20000, 300000, |t: Tier| case_strategy(t.pick(60, 200), false), check_iter_fold),
-            prop_sub("fold", 20000, 300000, |t: Tier| case_strategy(t.pick(60, 200), false), check_fold),
+            prop_sub("cross_validate", 100000, 400000, |t: Tier| case_strategy(t.pick(60, 200), true), check_cv),
+            prop_sub("iter_fold", 100000, 400000, |t: Tier| case_strategy(t.pick(60, 200), false), check_iter_fold),
+            prop_sub("fold", 100000, 400000, |t: Tier| case_strategy(t.pick(60, 200), false), check_fold),
             enum_sub("fold_all_nk", |t: Tier| all_nk(t.pick(40, 70)), check_fold),
             enum_sub("iter_fold_all_nk", |t: Tier| all_nk(t.pick(40, 70)), check_iter_fold),
             enum_sub("cross_validate_all_nk", |t: Tier| all_nk(t.pick(40, 70)), check_cv),
